@@ -90,11 +90,30 @@ def c02_2(c: Ctx) -> None:
                 c.fail(u, f'calls {U(n)[:80]} on an alias of _queue', f'the internal deque of the event queue is manipulated through alias {n.func.value.id}', node=n)
             if isinstance(n, ast.Subscript) and isinstance(n.value, ast.Name) and n.value.id in aliases:
                 c.fail(u, f'indexes alias {U(n)[:80]} of _queue', 'the internal deque of the event queue is indexed through an alias', node=n)
-    c.ok('bubus/*.py', f'{n_raw} reads of ._queue, none mutates or indexes the deque')
+    raw_calls = check_no_raw_queue_calls(c)
+    c.ok('bubus/*.py', f'{n_raw} reads of ._queue, none mutates or indexes the deque; {raw_calls} calls of the storage hooks _get/_put/_init')
     deq = dequeue_sites(c)
     c.floor(len(deq), 2, 'dequeue sites')
     for u, call in deq:
         c.ok(where(u, call), f'dequeue by {call_name(call)}() (head removal)')
+
+
+def check_no_raw_queue_calls(c: Ctx) -> int:
+    """asyncio.Queue's storage hooks (_get, _put, _init) and its bookkeeping (_unfinished_tasks, _finished) are used by nobody in the library: items enter and
+    leave the queue only through put_nowait / get / get_nowait, so nothing is removed without being handed to a consumer."""
+    n = 0
+    for u in c.prog.units.values():
+        if u.module == 'bubus/logging.py':
+            continue
+        for x in own_nodes(u.node):
+            if isinstance(x, ast.Call) and isinstance(x.func, ast.Attribute) and x.func.attr in ('_get', '_put', '_init') and not (isinstance(x.func.value, ast.Call) and call_name(x.func.value) == 'super'):
+                n += 1
+                c.fail(u, f'calls the queue storage hook {U(x)[:60]}', 'items are removed from / inserted into the event queue behind the back of get()/put_nowait(): accepted events are discarded (or reordered) '
+                       'without ever reaching process_event', node=x)
+            if isinstance(x, ast.Attribute) and x.attr in ('_unfinished_tasks', '_finished') and isinstance(x.ctx, (ast.Store, ast.Del)):
+                n += 1
+                c.fail(u, f'writes the queue bookkeeping {U(x)[:60]}', 'the unfinished-task accounting of the event queue is edited by hand: join() / wait_until_idle() no longer mean "everything accepted was processed"', node=x)
+    return n
 
 
 @ob('C02.3', 'SHAPE', 'the run loop awaits step() in place, step awaits process_event to completion, and the non-parallel branch awaits each handler in '
